@@ -28,7 +28,12 @@ def check(m, run):
     c17.ag5(m, run)
     vx1(m, run)
     c16.check_is_left(m, run, 'AL3.is-left')
-    al7(m, run)
+    from .. import skel_drivers as _sd
+    n0 = len(run.obs)
+    _sd.wn2(m, run)
+    wn_ok = all(o.ok for o in run.obs[n0:])
+    with run.corroborating(wn_ok, 'WN2', rules=('AL7.crossing-rule',)):
+        al7(m, run)
     c15.wn1(m, run)
     rs1(m, run)
     tf1(m, run, [m.func(k) for k in ('ray.intersect', 'ray._intersect2d', 'ray._intersect3d', '_voxelize.find_inouts_st', '_voxelize.find_inouts_mp')])
@@ -110,6 +115,8 @@ def al7(m, run):
     if len(loops) != 1:
         raise AnalysisError('wn_poly: edge loop not found')
     lp = loops[0]
+    if not isinstance(lp.target, ast.Name):
+        raise AnalysisError('wn_poly: the edge loop does not run over a vertex index')
     i = lp.target.id
     outer = [n for n in lp.body if isinstance(n, ast.If)]
     if len(outer) != 1:
